@@ -1119,7 +1119,8 @@ class CompositeEnvelope:
                         os = s.envelope.polarization
                     elif isinstance(s, Polarization):
                         os = s.envelope.fock
-                    if os not in state_list:
+                    # Membership by identity, two distinct states can be equal
+                    if not any(os is listed for listed in state_list):
                         state_list.append(os)
 
         # If the state resides in the BaseState or Envelope measure there
